@@ -528,4 +528,103 @@ theorem sumN_filter_skip (s : List Sel) :
   | cons a r ih =>
     obtain ⟨n, j⟩ := a
     cases j <;> simp [List.filter, sumN, countTrue_append] <;> omega
+
+/-- `limit` as an optional `take` -/
+def takeOpt {α} : Option Nat → List α → List α
+  | none, l => l
+  | some k, l => l.take k
+
+/-- what one row group contributes under a budget: `build_limited` = offset then limit
+(`positions_offsetSel`, `positions_limitSel`) -/
+def applyBudget {α} (bd : Budget) (g : List α) : List α :=
+  takeOpt bd.limit (g.drop (bd.offset.getD 0))
+
+/-- the push decoder's walk over row groups at the level of surviving rows: `g` = rows of one
+row group that survive selection and predicates; stop when the budget is exhausted
+(`RowGroupFrontier::next_readable_row_group`), otherwise emit the budgeted rows and advance
+(`RowBudget::apply_to_plan` / `plan_selected_row_group`). -/
+def distribute {α} (bd : Budget) : List (List α) → List (List α)
+  | [] => []
+  | g :: rest =>
+    if bd.isExhausted then []
+    else applyBudget bd g :: distribute (bd.advance g.length (bd.rowsAfter g.length)) rest
+
+theorem applyBudget_length {α} (bd : Budget) (g : List α) :
+    (applyBudget bd g).length = bd.rowsAfter g.length := by
+  unfold applyBudget Budget.rowsAfter takeOpt
+  cases bd.limit <;> cases bd.offset <;>
+    simp [ArrowModel.Generated.C06.BUDGET_DEFAULT_OFFSET, Nat.min_comm]
+
+theorem take_drop_append {α} (o l : Nat) (g r : List α) :
+    ((g ++ r).drop o).take l =
+      (g.drop o).take l ++ ((r.drop (o - g.length)).take (l - (g.length - o))) := by
+  simp [List.drop_append, List.take_append, List.length_drop]
+
+theorem advance_ss (o l n : Nat) (hl : l ≠ 0) :
+    Budget.advance ⟨some o, some l⟩ n (Budget.rowsAfter ⟨some o, some l⟩ n) =
+      ⟨some (o - n), some (l - (n - o))⟩ := by
+  simp only [Budget.advance, Budget.rowsAfter, Option.getD_some, Option.map_some,
+    ArrowModel.Generated.C06.BUDGET_ADVANCE_SKIP_WHEN]
+  by_cases h0 : min (n - o) l = 0
+  · simp only [h0, ne_eq, not_true_eq_false, if_false, Option.map_some]
+    congr 2 <;> omega
+  · simp only [h0, ne_eq, not_false_eq_true, if_true, Option.map_some]
+    congr 2 <;> omega
+
+theorem advance_ns (l n : Nat) (hl : l ≠ 0) :
+    Budget.advance ⟨none, some l⟩ n (Budget.rowsAfter ⟨none, some l⟩ n) =
+      ⟨none, some (l - n)⟩ := by
+  simp only [Budget.advance, Budget.rowsAfter, Option.getD_none, Option.map_none, Option.map_some,
+    ArrowModel.Generated.C06.BUDGET_ADVANCE_SKIP_WHEN, ArrowModel.Generated.C06.BUDGET_DEFAULT_OFFSET,
+    Nat.sub_zero]
+  by_cases h0 : min n l = 0
+  · simp only [h0, ne_eq, not_true_eq_false, if_false]
+    congr 2; omega
+  · simp only [h0, ne_eq, not_false_eq_true, if_true]
+    congr 2; omega
+
+theorem advance_sn (o n : Nat) :
+    Budget.advance ⟨some o, none⟩ n (Budget.rowsAfter ⟨some o, none⟩ n) = ⟨some (o - n), none⟩ := by
+  simp only [Budget.advance, Budget.rowsAfter, Option.getD_some, Option.map_some, Option.map_none]
+  congr 2
+  · omega
+  · exact ite_self _
+
+theorem advance_nn (n : Nat) :
+    Budget.advance ⟨none, none⟩ n (Budget.rowsAfter ⟨none, none⟩ n) = ⟨none, none⟩ := by
+  simp only [Budget.advance, Budget.rowsAfter, Option.map_none]
+  congr 1
+  exact ite_self _
+
+theorem distribute_flatten {α} (bd : Budget) (gs : List (List α)) :
+    (distribute bd gs).flatten = applyBudget bd gs.flatten := by
+  induction gs generalizing bd with
+  | nil => unfold distribute applyBudget takeOpt; cases bd.limit <;> simp
+  | cons g rest ih =>
+    unfold distribute
+    split
+    · rename_i hex
+      simp [Budget.isExhausted, ArrowModel.Generated.C06.BUDGET_EXHAUSTED_LIMIT] at hex
+      simp [applyBudget, takeOpt, hex]
+    · rename_i hex
+      simp only [List.flatten_cons, ih]
+      obtain ⟨off, lim⟩ := bd
+      cases lim with
+      | none =>
+        cases off with
+        | none => rw [advance_nn]; simp [applyBudget, takeOpt]
+        | some o => rw [advance_sn]; simp [applyBudget, takeOpt, List.drop_append]
+      | some l =>
+        have hl : l ≠ 0 := by
+          intro h; subst h
+          simp [Budget.isExhausted, ArrowModel.Generated.C06.BUDGET_EXHAUSTED_LIMIT] at hex
+        cases off with
+        | none =>
+          rw [advance_ns _ _ hl]
+          have := take_drop_append 0 l g rest.flatten
+          simpa [applyBudget, takeOpt] using this.symm
+        | some o =>
+          rw [advance_ss _ _ _ hl]
+          have := take_drop_append o l g rest.flatten
+          simpa [applyBudget, takeOpt] using this.symm
 end ArrowModel.C06
